@@ -789,10 +789,33 @@ def run_selector_history(ctx, cs, H):
                    hx(cancel) if si_seen == usi else "wrong-si", guard(r_cancel, secret, usi, seed), args=args)
 
 
-def gen_trackers(ctx, cs, n):
-    """Tahoe2ServerSelector._create_trackers called directly: arbitrary candidate lists and share-size limits"""
+def run_trackers_case(ctx, cs, recs, alloc, frs, fcs, kind="Tahoe2ServerSelector._create_trackers"):
+    """Tahoe2ServerSelector._create_trackers called directly on server records [(serverid, lease seed, max share size)]"""
     from allmydata.immutable import upload
     from twisted.internet import task
+    sel = upload.Tahoe2ServerSelector(b"c17", upload_status=upload.UploadStatus(), reactor=task.Clock())
+    sel.peer_selector = upload.PeerSelector(1, max(len(recs), 1), 1, 1)
+    captured = []
+    observe_create_trackers(sel, captured)
+    servers = [FakeServer(a, b, b"", None, c) for (a, b, c) in recs]
+
+    class T:   # stands in for ServerTracker: keeps what it was given
+        def __init__(self, s, r, c): self.s, self.renew_secret, self.cancel_secret = s, r, c
+        def get_server(self): return self.s
+        def get_serverid(self): return self.s.get_serverid()
+
+    def call():
+        sel._create_trackers(servers, alloc, frs, fcs, T)
+        (_c, _a, _f, _g, wr, ro) = captured[-1]
+        return trackers_str(wr, ro)
+    line = "trackers %d %s %s%s" % (alloc, hx(frs), hx(fcs), "".join(" " + srv_tok(a, b, b"", c) for (a, b, c) in recs))
+    cs.add(kind, line, guard(call), guard(r_trackers, recs, alloc, frs, fcs),
+           signature="secret-at-use-differs:create-trackers:pairing")
+    ctx.count("trackers:%s" % ("some filtered" if any(c < alloc for (_a, _b, c) in recs) else "none filtered"))
+
+
+def gen_trackers(ctx, cs, n):
+    """arbitrary candidate lists and share-size limits"""
     rng = ctx.rng
     for _ in range(n):
         ns = rng.choice([0, 1, 2, 3, 5, 8, 12])
@@ -801,26 +824,7 @@ def gen_trackers(ctx, cs, n):
         for j in range(ns):
             lease = rbytes(rng, 20 if rng.random() < 0.97 else rng.choice([0, 19, 21]))
             recs.append((rbytes(rng, 20), lease, rng.choice([0, alloc - 1, alloc, alloc + 1, 2 ** 40, 2 ** 40])))
-        frs, fcs = rbytes(rng, 32), rbytes(rng, 32)
-        sel = upload.Tahoe2ServerSelector(b"c17", upload_status=upload.UploadStatus(), reactor=task.Clock())
-        sel.peer_selector = upload.PeerSelector(1, max(ns, 1), 1, 1)
-        captured = []
-        observe_create_trackers(sel, captured)
-        servers = [FakeServer(a, b, b"", None, c) for (a, b, c) in recs]
-
-        class T:   # stands in for ServerTracker: keeps what it was given
-            def __init__(self, s, r, c): self.s, self.renew_secret, self.cancel_secret = s, r, c
-            def get_server(self): return self.s
-            def get_serverid(self): return self.s.get_serverid()
-
-        def call():
-            sel._create_trackers(servers, alloc, frs, fcs, T)
-            (_c, _a, _f, _g, wr, ro) = captured[-1]
-            return trackers_str(wr, ro)
-        line = "trackers %d %s %s%s" % (alloc, hx(frs), hx(fcs), "".join(" " + srv_tok(a, b, b"", c) for (a, b, c) in recs))
-        cs.add("Tahoe2ServerSelector._create_trackers", line, guard(call), guard(r_trackers, recs, alloc, frs, fcs),
-               signature="secret-at-use-differs:create-trackers:pairing")
-        ctx.count("trackers:%s" % ("some filtered" if any(c < alloc for (_a, _b, c) in recs) else "none filtered"))
+        run_trackers_case(ctx, cs, recs, alloc, rbytes(rng, 32), rbytes(rng, 32))
 
 
 def make_dirnode_history(rng):
@@ -1202,14 +1206,103 @@ def extracted_constants_monitor(ctx):
     ctx.case(None)
 
 
+# --- fixed corpus: one minimal input / history per known mechanism, independent of VERIF_SEED -----------
+#
+# Runs before any random generation (and alone when VERIF_CORPUS_ONLY=1).  All bytes are literal patterns, nothing is
+# drawn from an rng, so editing the random generators cannot silently lose one of these mechanisms:
+#   known answers   — any edit of a tag, a truncation, the netstring/pair shape (test_hashutil.py, lease.rst vectors)
+#   corpus:ws-secret (seeded C17-b) — a master lease secret whose first/last byte is ASCII white space must be hashed as is
+#   corpus:reannounced (seeded C17-a) — one long-lived MutableFileNode asked about two servers with the same server id and
+#                     different seeds (and the converse), in both orders
+#   corpus:filtered (seeded C17-c) — uploader tracker tables / allocate_buckets traffic when a candidate server is filtered
+#                     out first / in the middle / last; a grid with a read-only server; add-lease and the leases on disk
+#   corpus:caps, corpus:dirnode — cap classes and dirnode child-cap keys on crossed arguments (call-site mutations of round 1)
+
+def _pat(start, n, step=1):
+    return bytes((start + step * i) & 0xff for i in range(n))
+
+
+def fixed_corpus(ctx, cs):
+    attempt(ctx, "corpus known answers", lambda: known_answers(ctx, cs))
+    attempt(ctx, "corpus constants", lambda: extracted_constants_monitor(ctx))
+
+    sidA, sidB, sidC = b"\xa1" * 20, b"\xb2" * 20, b"\xc3" * 32
+    L = [_pat(0x10, 20), _pat(0x40, 20, 3), _pat(0x90, 20, 5)]
+    W = [_pat(0x21, 20, 7), _pat(0x55, 20, 2), _pat(0xe0, 20, 9)]
+    wk1, wk2 = _pat(0x01, 16), _pat(0x77, 16, 5)
+    fp = _pat(0x30, 32)
+
+    # -- C17-b: white space (and other text-sensitive bytes) at the ends of the binary master secret
+    ws_secrets = [bytes([a]) + _pat(0x61 + n, 30) + bytes([b])
+                  for n, (a, b) in enumerate([(0x09, 0x0a), (0x0b, 0x0c), (0x0d, 0x20), (0x20, 0x41), (0x41, 0x0a), (0x00, 0x00)])]
+    Hb = {"type": "objects", "secrets": [_h(x) for x in ws_secrets],
+          "servers": [[_h(sidA), _h(L[0]), _h(W[0])], [_h(sidB), _h(L[1]), _h(W[1])]],
+          "nodes": [{"wk": _h(wk1), "fp": _h(fp), "holder": i, "mdmf": bool(i % 2)} for i in range(len(ws_secrets))],
+          "checkers": [{"key": _h(wk2), "fp": _h(fp), "holder": i} for i in range(len(ws_secrets))],
+          "calls": [c for i in range(len(ws_secrets)) for c in (
+              ["holder", i, "get_renewal_secret", 0], ["holder", i, "get_cancel_secret", 0],
+              ["node", i, "get_renewal_secret", 0], ["node", i, "get_cancel_secret", 1],
+              ["checker", i, "_get_renewal_secret", 1], ["checker", i, "_get_cancel_secret", 0])]}
+    attempt(ctx, "corpus:ws-secret", lambda: run_object_history(ctx, cs, Hb))
+
+    # -- C17-a: a re-announced server (same id, new seeds), the converse (new id, same seeds), both orders, repeated
+    servers = [[sidA, L[0], W[0]], [sidA, L[1], W[1]], [sidB, L[0], W[0]], [sidA, L[0], W[2]], [sidA, L[2], W[0]], [sidC, L[1], W[1]]]
+    calls = []
+    for m in ("get_renewal_secret", "get_cancel_secret", "get_write_enabler"):
+        calls += [["node", 0, m, j] for j in (0, 1, 2, 3, 4, 5, 0, 1)]      # node 0: old announcement first
+        calls += [["node", 1, m, j] for j in (1, 0, 4, 3, 2, 5, 1, 0)]      # node 1: new announcement first
+    for m in ("_get_renewal_secret", "_get_cancel_secret"):
+        calls += [["checker", 0, m, j] for j in (0, 1, 2, 0)]
+    Ha = {"type": "objects", "secrets": [_h(_pat(0x80, 32, 3))], "servers": [[_h(x) for x in sv] for sv in servers],
+          "nodes": [{"wk": _h(wk1), "fp": _h(fp), "holder": 0, "mdmf": False}, {"wk": _h(wk1), "fp": _h(fp), "holder": 0, "mdmf": True}],
+          "checkers": [{"key": _h(wk2), "fp": _h(fp), "holder": 0}], "calls": calls}
+    attempt(ctx, "corpus:reannounced", lambda: run_object_history(ctx, cs, Ha))
+
+    # -- C17-c: pairing of servers with lease secrets when a candidate is filtered out (first / middle / last / two / none / all)
+    frs, fcs = _pat(0x11, 32, 3), _pat(0x99, 32, 5)
+    ids = [bytes([0xd0 + j]) * 20 for j in range(5)]
+    seeds = [_pat(0x05 + 0x21 * j, 20, 1 + j) for j in range(5)]
+    BIG = 2 ** 40
+    for small in ([0], [2], [4], [1, 3], [], [0, 1, 2, 3, 4]):
+        recs = [(ids[j], seeds[j], (10 if j in small else BIG)) for j in range(5)]
+        attempt(ctx, "corpus:filtered trackers", lambda: run_trackers_case(ctx, cs, recs, 1400, frs, fcs,
+                                                                          kind="corpus Tahoe2ServerSelector._create_trackers"))
+    Hc = {"type": "selector", "secret": _h(_pat(0x0a, 32, 7)), "rounds": [
+        {"si": _h(_pat(0x31, 16)), "total": 3, "servers": [[_h(ids[j]), _h(seeds[j]), (0 if j == 0 else BIG)] for j in range(4)]},
+        {"si": _h(_pat(0x32, 16)), "total": 2, "servers": [[_h(ids[j]), _h(seeds[j]), (10 if j == 1 else BIG)] for j in range(4)]},
+        {"si": _h(_pat(0x31, 16)), "total": 4, "servers": [[_h(ids[j]), _h(seeds[(j + 1) % 5]), (1400 if j == 3 else BIG)] for j in range(4)]}]}
+    attempt(ctx, "corpus:filtered selector", lambda: run_selector_history(ctx, cs, Hc))
+    # the same on a real grid: read-only server #2 of 6, four storage indexes (it is first / middle / last in some permutation),
+    # upload, check --add-lease, repair, mutable create / publish / check / repair; the master secret ends in a newline byte
+    Sg = {"type": "grid", "seed": 3, "servers": 6, "limited": {"2": "readonly"}, "k": 2, "n": 5,
+          "files": [{"data": _h(_pat(n, 300 + 7 * n, 3)), "conv": _h(_pat(0x63 + n, 16))} for n in range(4)],
+          "repair": True, "mutable": True, "mdmf": False, "mkey": 0,
+          "seeds": [[_h(_pat(0x12 + 0x17 * j, 20, 2 + j)), _h(_pat(0xa3 + 0x0b * j, 20, 3 + j))] for j in range(6)],
+          "master": _h(b"\x20" + _pat(0x3c, 30, 5) + b"\x0a")}
+    attempt(ctx, "corpus:filtered grid", lambda: run_grid_scenario(ctx, cs, Sg))
+
+    # -- round-1 call-site mutations: cap classes and dirnode keys on crossed arguments
+    for fn in ("wcap", "rcap", "chk", "ssk_write_enabler_hash", "file_cancel_secret_hash", "mutable_rwcap_key_hash"):
+        la, lb = F2_DOC.get(fn, (16, 0))
+        Hp = {"type": "pool", "fn": fn, "pa": [_h(_pat(0x10 * (i + 1), la, i + 1)) for i in range(3)],
+              "pb": [_h(_pat(0x07 * (i + 3), lb, i + 2)) for i in range(3)],
+              "calls": [[0, 0], [0, 1], [1, 0], [1, 1], [2, 2], [0, 0]]}
+        attempt(ctx, "corpus:caps " + fn, lambda: run_pool_history(ctx, cs, Hp))
+    Hd = {"type": "dirnode", "wks": [_h(wk1), _h(wk2)],
+          "uris": [_h(b"URI:SSK:" + b32(_pat(0x21, 16)) + b":" + b32(_pat(0x51, 32))), _h(b"URI:CHK:short"), _h(b"")],
+          "calls": [[0, 0], [1, 0], [0, 1], [1, 1], [0, 2], [0, 0]]}
+    attempt(ctx, "corpus:dirnode", lambda: run_dirnode_history(ctx, cs, Hd))
+    ctx.count("corpus cases", len(cs.rows))
+
+
 def run(ctx):
+    import os
     cs = Cases(ctx)
     if ctx.replay:
         replay(ctx, ctx.replay)
         return
-    steps = [("known answers", lambda: known_answers(ctx, cs)),
-             ("constants", lambda: extracted_constants_monitor(ctx)),
-             ("primitives", lambda: gen_primitives(ctx, cs, ctx.budget(60, 1500))),
+    fixed_corpus(ctx, cs)          # always first, independent of VERIF_SEED
+    steps = [("primitives", lambda: gen_primitives(ctx, cs, ctx.budget(60, 1500))),
              ("generic tagged hashes", lambda: gen_generic(ctx, cs, ctx.budget(250, 8000))),
              ("named derivations", lambda: gen_named(ctx, cs, ctx.budget(30, 1500))),
              ("convergence", lambda: gen_convergence(ctx, cs, ctx.budget(150, 5000))),
@@ -1219,6 +1312,9 @@ def run(ctx):
              ("call-site histories", lambda: gen_histories(ctx, cs, ctx.budget(40, 1200))),
              ("secrets at the point of use (in-process grid)", lambda: gen_grid_use(ctx, cs, ctx.budget(8, 150))),
              ("derive_mutable_keys", lambda: gen_mutable_keys(ctx, cs, ctx.budget(2, 12)))]
+    if os.environ.get("VERIF_CORPUS_ONLY") == "1":
+        ctx.note("VERIF_CORPUS_ONLY=1: only the fixed corpus was run (%d cases)" % len(cs.rows))
+        steps = []
     for label, f in steps:
         attempt(ctx, label, f)
     cs.finish()
